@@ -333,6 +333,20 @@ def _solve_worker(job):
             out['backend'] = 'cvc5-cli'
         out['detail'] += ' | cvc5: ' + d2
     if out['res'] == 'unknown' and expect == 'unsat' and z3_timed_out:
+        # The same SMT-LIB text was seen to time out in-process (in every fresh context of that process) while the z3 binary
+        # decides it at once: the in-process search depends on the process's memory layout, which the obligations built
+        # earlier in the run determine.  A separate process takes that history out of the verdict: ask the binary first.
+        z3_bin = shutil.which('z3-new') or '/usr/bin/z3'
+        try:
+            rc_, d_ = run_z3_cli(smt2, max(5, z3_ms // 1000), binary=z3_bin)
+        except Exception as e:  # pylint: disable=broad-except
+            rc_, d_ = 'unknown', repr(e)
+        if rc_ in ('sat', 'unsat'):
+            out['res'] = rc_
+            out['backend'] = '%s (separate process, after the in-process solve timed out)' % os.path.basename(z3_bin)
+            out['seconds'] = time.time() - t0
+            return out
+        out['detail'] += ' | z3 binary: ' + d_[:80]
         # both budgets exhausted.  Solve times of quantified VCs are heavy-tailed and a loaded machine stretches them
         # (C19 closed-elems#2: 0.6 s, 1.6 s, 7 s and one 20 s timeout across four runs of the same text), so restart in
         # fresh contexts with other seeds, the last time with four times the budget: a verdict must not flip to undecided
